@@ -38,6 +38,11 @@ pub struct AliasPlan {
     /// request i applies weight 2^(i+8); requests are dealt round-robin to `nthreads` threads
     pub requests: Vec<Req>,
     pub nthreads: usize,
+    /// shared vectors, two threads: an unrelated child (label values "\u{1}churn") exists from the
+    /// start and every thread removes and re-creates it after each of its requests, so the number of
+    /// children goes up and down while equal tuples are requested concurrently
+    #[serde(default)]
+    pub churn: bool,
 }
 
 fn splits(s: &str, n: usize, r: &mut Rng) -> Vec<String> {
@@ -119,8 +124,10 @@ fn gen_plan(seed: u64) -> AliasPlan {
         }
     }
     let nthreads = if is_local || r.chance(50) { 1 } else { 2 };
-    let env = Env::swarm(&mut r, nthreads, nreq as u64 * 8 + 10, false);
-    AliasPlan { env, kind, labels, consts, requests, nthreads }
+    let churn = nthreads == 2 && r.chance(50);
+    let faults = churn && r.chance(50);
+    let env = Env::swarm(&mut r, nthreads, nreq as u64 * 12 + 10, faults);
+    AliasPlan { env, kind, labels, consts, requests, nthreads, churn }
 }
 
 /// The tuple a request denotes, or None if the request is invalid for the declared names.
@@ -209,6 +216,18 @@ impl V {
             V::H(v) => req_get!(v, req, Hd::H),
         }
     }
+    fn remove(&self, req: &Req) {
+        if let Req::Values(vals) = req {
+            let vs: Vec<&str> = vals.iter().map(|s| s.as_str()).collect();
+            let _ = match self {
+                V::C(v) => v.remove_label_values(&vs),
+                V::IC(v) => v.remove_label_values(&vs),
+                V::G(v) => v.remove_label_values(&vs),
+                V::IG(v) => v.remove_label_values(&vs),
+                V::H(v) => v.remove_label_values(&vs),
+            };
+        }
+    }
     fn collect(&self) -> Vec<proto::MetricFamily> {
         match self {
             V::C(v) => v.collect(),
@@ -249,13 +268,23 @@ fn execute(plan: &AliasPlan, mode: Mode) -> RunOut {
     let results: Results<ARes> = Arc::new(Mutex::new(vec![]));
     let handles: Arc<Mutex<BTreeMap<usize, Hd>>> = Arc::new(Mutex::new(BTreeMap::new()));
     let local_reads: Arc<Mutex<BTreeMap<usize, f64>>> = Arc::new(Mutex::new(BTreeMap::new()));
+    let churn_req = Req::Values(plan.labels.iter().map(|_| "\u{1}churn".to_string()).collect());
+    if plan.churn && !is_local {
+        let _ = vec.get(&churn_req);
+    }
     if !is_local {
         let vec = vec.clone();
         let handles = handles.clone();
+        let churn = plan.churn;
+        let churn_req2 = churn_req.clone();
         spawn_threads(&sim, &threads, &results, move |_ctx, _t, _i, (ri, req): &(usize, Req)| match vec.get(req) {
             Ok(h) => {
                 h.add(1u64 << (ri + 8));
                 handles.lock().unwrap().insert(*ri, h);
+                if churn {
+                    vec.remove(&churn_req2);
+                    let _ = vec.get(&churn_req2);
+                }
                 ARes::Ok
             }
             Err(_) => {
@@ -362,7 +391,7 @@ fn execute(plan: &AliasPlan, mode: Mode) -> RunOut {
         for (id, r) in results.iter() {
             if let Ok(ARes::Err(b, a)) = r {
                 let ri = threads[op_thread(*id)][*id as usize % 1000].0;
-                if tuples[ri].is_none() && plan.nthreads <= 1 && a != b {
+                if tuples[ri].is_none() && plan.nthreads <= 1 && !plan.churn && a != b {
                     out.violations.push(Violation::new("C05/error", "C05/error-created", format!("refused request {:?} changed the number of children from {} to {}", plan.requests[ri], b, a)));
                 }
             }
@@ -390,7 +419,12 @@ fn execute(plan: &AliasPlan, mode: Mode) -> RunOut {
     // exposure: one sample per distinct tuple, exact label pairs sorted by name, exact value
     let fam = compat::family_of(&vec.collect()[0]);
     let mut seen: BTreeMap<Vec<String>, usize> = BTreeMap::new();
+    let churn_tuple: Vec<String> = plan.labels.iter().map(|_| "\u{1}churn".to_string()).collect();
     for m in &fam.metrics {
+        if plan.churn && plan.labels.iter().all(|n| m.labels.iter().any(|(k, v)| k == n && v == "\u{1}churn")) {
+            let _ = &churn_tuple;
+            continue; // the unrelated child that is removed and re-created all the time
+        }
         let mut expect_names: Vec<&str> = plan.labels.iter().map(|s| s.as_str()).chain(plan.consts.iter().map(|(k, _)| k.as_str())).collect();
         expect_names.sort();
         let got_names: Vec<&str> = m.labels.iter().map(|(k, _)| k.as_str()).collect();
@@ -443,7 +477,7 @@ fn execute(plan: &AliasPlan, mode: Mode) -> RunOut {
     }
     // distinct = distinct workload shapes (kind, labels, constants, requests, threads), not seeds
     let mut fp = crate::rng::Fp::default();
-    fp.str(&serde_json::to_string(&(&plan.kind, &plan.labels, &plan.consts, &plan.requests, plan.nthreads)).unwrap());
+    fp.str(&serde_json::to_string(&(&plan.kind, &plan.labels, &plan.consts, &plan.requests, plan.nthreads, plan.churn)).unwrap());
     out.signature = fp.0;
     out.probes.push(("invalid_requests", tuples.iter().filter(|t| t.is_none()).count() as u64));
     out.probes.push(("same_concatenation_pairs", {
@@ -494,8 +528,11 @@ impl Scenario for C05 {
                 c.push(AliasPlan { requests: n, ..p.clone() });
             }
         }
+        if p.churn {
+            c.push(AliasPlan { churn: false, ..p.clone() });
+        }
         if p.nthreads > 1 {
-            c.push(AliasPlan { nthreads: 1, ..p.clone() });
+            c.push(AliasPlan { nthreads: 1, churn: false, ..p.clone() });
         }
         if !p.consts.is_empty() {
             c.push(AliasPlan { consts: vec![], ..p.clone() });
